@@ -24,6 +24,10 @@ func (m Misbehaviour) ValidateBasic() error {
 		return errorsmod.Wrap(clienttypes.ErrInvalidMisbehaviour, "sequence cannot be 0")
 	}
 
+	if m.SignatureOne == nil || m.SignatureTwo == nil {
+		return errorsmod.Wrap(clienttypes.ErrInvalidMisbehaviour, "signature and data cannot be nil")
+	}
+
 	if err := m.SignatureOne.ValidateBasic(); err != nil {
 		return errorsmod.Wrap(err, "signature one failed basic validation")
 	}
